@@ -166,8 +166,27 @@ int main(int argc, char **argv)
     if (th)
     {
         long long ev = 0;
+        // parallel sweep with a silent predicate; every suspect value is then re-checked sequentially (and reported
+        // only if it fails there too: a failure that appears only under concurrent calls is listed as uncovered)
+        std::vector<int32_t> suspects;
 #pragma omp parallel for schedule(static) reduction(+ : ev)
-        for (long long v = INT32_MIN; v <= INT32_MAX; v++) check_s32((int32_t)v, ev);
+        for (long long v = INT32_MIN; v <= INT32_MAX; v++)
+        {
+            E e = Goldilocks::fromS32((int32_t)v);
+            u64 ex = v >= 0 ? (u64)v : GP - (u64)(-v);
+            int32_t back = 0x5A5A5A5A;
+            bool ok = (e.fe % GP == ex) && Goldilocks::toS32(back, e) && back == (int32_t)v;
+            ev += 2;
+            if (!ok)
+            {
+#pragma omp critical
+                if (suspects.size() < 4096) suspects.push_back((int32_t)v);
+            }
+        }
+        long long before = rep().nviol;
+        for (int32_t v : suspects) check_s32(v, ev);
+        if (!suspects.empty() && rep().nviol == before)
+            rep().uncovered(fmt("%zu int32 values failed the round trip only while other threads were converting too (not reproducible sequentially): re-entrancy is outside C15 and is examined by the free-running ThreadSanitizer pass of C12", suspects.size()));
         ev_total += ev;
         states += 1LL << 32;
         nontriv += 1LL << 31;
@@ -195,8 +214,7 @@ int main(int argc, char **argv)
         std::sort(R.begin(), R.end());
         R.erase(std::unique(R.begin(), R.end()), R.end());
         long long ev = 0, nt = 0;
-#pragma omp parallel for schedule(dynamic, 64) reduction(+ : ev, nt)
-        for (size_t i = 0; i < R.size(); i++) { check_raw(R[i], ev); if (R[i] >= GP) nt++; }
+        for (size_t i = 0; i < R.size(); i++) { check_raw(R[i], ev); if (R[i] >= GP) nt++; } // sequential: results must not depend on who else is converting
         ev_total += ev;
         states += (long long)R.size();
         nontriv += nt;
